@@ -172,6 +172,14 @@ def run(chk, P):
     chk.floor('R10.4', 2)
     r10_3(chk, P, E)
     chk.floor('R10.3', 8)
+    chk.rule('R10.5', 'seekable mode selects each link\'s pages by the serial number found at open: every value stored into '
+             'vf->serialnos[] that derives from the stream state vf->os.serialno sees that link\'s header fetch as the last call '
+             'that may have set the serial number (a read after a deeper bisection level sees the last link\'s serial, and a '
+             'seekable read then skips the middle links the streaming and packet-level decodes deliver) -- same obligations as '
+             'R09.8, restricted to the serialnos table')
+    from rules import c09
+    c09.r09_8(common.Proxy(chk, 'R10.5', only=lambda fn, cons: cons.startswith('serialnos-')), P, E)
+    chk.floor('R10.5', 2)
     chk.trusted += ['clang 14 front end', 'K3 effect analysis', 'call graph']
     return ('Path and call-graph rules decide the structural conditions under which delivery cannot matter: short reads commit '
             'exactly what arrived, the caller\'s length clamps before anything is consumed or filtered, and every access mode '
